@@ -344,11 +344,14 @@ func (db *DB) Merge() error {
 				}
 
 				// check if we have a new entry with same key and bucket
-				if r, _ := db.getRecordFromKey(entry.Meta.bucket, entry.Key); r != nil && !skipEntry {
-					if r.H.fileID > int64(pendingMergeFId) {
-						skipEntry = true
-					} else if r.H.fileID == int64(pendingMergeFId) && r.H.dataPos > uint64(off) {
-						skipEntry = true
+				// (the key/value index only speaks for key/value records)
+				if entry.Meta.ds == DataStructureBPTree {
+					if r, _ := db.getRecordFromKey(entry.Meta.bucket, entry.Key); r != nil && !skipEntry {
+						if r.H.fileID > int64(pendingMergeFId) {
+							skipEntry = true
+						} else if r.H.fileID == int64(pendingMergeFId) && r.H.dataPos > uint64(off) {
+							skipEntry = true
+						}
 					}
 				}
 
